@@ -630,11 +630,16 @@ sqf::runtime::runtime::result sqf::runtime::runtime::execute(sqf::runtime::runti
             while (!m_is_exit_requested && !m_is_halt_requested && !m_contexts.empty())
             {
                 if (!dinf.has_value() && !m_context_active->empty())
-                {
-                    auto next_inst = m_context_active->current_frame().peek(success);
-                    if (success)
+                { // The line being stepped is that of the next instruction: the one of the
+                  // innermost frame which has one left (a block that ran to its end continues in its caller).
+                    for (auto it = m_context_active->frames_rbegin(); it != m_context_active->frames_rend(); ++it)
                     {
-                        dinf = { (*next_inst)->diag_info() };
+                        auto next_inst = it->peek(success);
+                        if (success)
+                        {
+                            dinf = { (*next_inst)->diag_info() };
+                            break;
+                        }
                     }
                 }
 
